@@ -389,6 +389,8 @@ def fstring(interp, node, frame):
         if v.format_spec is not None:
             spec = "".join(x.value for x in v.format_spec.values if isinstance(x, ast.Constant))
         val = norm(val) if not isinstance(val, (Text, Tok)) else val
+        if val is None and not spec:
+            val = "None"
         if isinstance(val, str):
             parts.append(val)
         elif spec and spec.endswith("f"):
